@@ -35,9 +35,11 @@ def full_stage(chk, pid, tier, seed):
     if pid == "C04":
         # time-dependent duration matrices with departures around the frame boundaries, off the minute
         for i in range(80 if tier == "quick" else 2500):
-            inp, opts, feats = GF.gen_full(rng, "small" if i % 3 else "medium", force={"td": True, "windows": (i % 2 == 0)})
+            inp, opts, feats = GF.gen_full(rng, "small" if i % 3 else "medium", force={"td": True, "windows": (i % 2 == 0), "per_vehicle_matrix": 0.6})
             meta["t%d" % i] = (inp, opts)
-            blocks.append(("t%d" % i, GF.case_lines(inp, opts, {"iterations": 60, "duration_ms": 2500, "runs": 1, "starts": 1, "output": 2})))
+            # every third input is handed over the way a Go program would build it: typed matrices (the factory has separate branches)
+            blocks.append(("t%d" % i, GF.case_lines(inp, opts, {"iterations": 60, "duration_ms": 2500, "runs": 1, "starts": 1, "output": 2,
+                                                                "typed": 1 if i % 3 == 1 else 0})))
     if pid == "C02":
         # alternates that carry the temporal fields of a stop, some of them only
         for i in range(80 if tier == "quick" else 2500):
@@ -59,6 +61,21 @@ def full_stage(chk, pid, tier, seed):
         for i in range(80 if tier == "quick" else 2500):
             inp, opts, feats = GF.gen_full(rng, "small" if i % 3 else "medium",
                                            force={"precedence": True, "dag": i % 2 == 0, "direct_p": 0.6, "succ_p": 0.8, "mixing": False})
+            meta["t%d" % i] = (inp, opts)
+            blocks.append(("t%d" % i, GF.case_lines(inp, opts, {"iterations": 60, "duration_ms": 2500, "runs": 1, "starts": 1, "output": 2})))
+    if pid == "C20":
+        # vehicles whose route starts at the model epoch (no start_time at all, or the start-time constraint switched off) while stops
+        # have windows: absolute times are left out of the output for them, the durations are not
+        for i in range(80 if tier == "quick" else 2500):
+            inp, opts, feats = GF.gen_full(rng, "small" if i % 3 else "medium", force={"windows": True, "alternates": i % 4 == 0, "initial": False})
+            if i % 2:
+                opts["constraints"]["disable"]["vehicle_start_time"] = True
+            else:
+                opts["validate"]["disable"]["start_time"] = True
+                for ve in inp["vehicles"]:
+                    ve.pop("start_time", None)
+                    ve.pop("end_time", None)
+            opts["constraints"]["disable"]["start_time_windows"] = False
             meta["t%d" % i] = (inp, opts)
             blocks.append(("t%d" % i, GF.case_lines(inp, opts, {"iterations": 60, "duration_ms": 2500, "runs": 1, "starts": 1, "output": 2})))
     if pid == "C05":
@@ -389,6 +406,19 @@ def run(pid, tier, seed, oracle_names, title, feats=None, check_c07=False, extra
         tri = E.make_cases(seed * 1009 + 1919, nh, size=size, nops=35, feats=tf, mode="checked_only")
         for c in tri:
             c["id"] = "tri" + c["id"]
+            c["model"]["triangle"] = True
+        cases += tri
+    if pid == "C02":
+        # the same declaration on models with windows, end times and units of several stops, moves through the estimates only:
+        # with the exact latest-start / latest-end check switched off the estimate is the only guard of the windows
+        # (no vehicle end time / maximum duration: with the declaration NewSolution does not check the empty vehicle's own trip
+        # against them either - API-only configuration, see DESIGN section 10)
+        tf = dict(feats or {}, nonmetric=False, dgroups=False, mult=False, windows=True, precedence=True, endtime=False, maxdur=False,
+                  maxwait_stop=False, maxwait_veh=False, capacity=False, maxstops=False, attrs=False, maxdist=False, tight=True)
+        tri = E.make_cases(seed * 1009 + 202, nh, size=size, nops=35, feats=tf, mode="checked_only")
+        tri += E.make_cases(seed * 1009 + 203, nh // 2, size="medium", nops=45, feats=dict(tf, one_vehicle=True), mode="checked_only")
+        for k, c in enumerate(tri):
+            c["id"] = "tri%d" % k
             c["model"]["triangle"] = True
         cases += tri
     res, st = E.run_cases(cases, "%s_%s" % (pid.lower(), tier), timeout=3000)
